@@ -67,6 +67,15 @@ type Case struct {
 	RespLen int `json:"respLen,omitempty"`
 	// RespCT: Content-Type of the scripted response ("" = application/json)
 	RespCT string `json:"respContentType,omitempty"`
+	// RespStatus (0 = 200), RespKnownLen (ContentLength = len(body) instead of -1), RespFailAt (> 0: the
+	// scripted response body fails with an error once that many bytes were read)
+	RespStatus   int  `json:"respStatus,omitempty"`
+	RespKnownLen bool `json:"respKnownLength,omitempty"`
+	RespFailAt   int  `json:"respFailAt,omitempty"`
+	// Debug: Runtime.Debug on (the request and the response are dumped through a discarding logger)
+	Debug bool `json:"debug,omitempty"`
+	// AuthGetBody: the operation has an auth writer that calls GetBody (cancel kind: reaches cl.getbody.copy)
+	AuthGetBody bool `json:"authGetBody,omitempty"`
 	// CloseFails: Close of every upload source reports an error (after releasing the source)
 	CloseFails bool `json:"closeFails,omitempty"`
 	// FaultSrc: which upload source of a multi-file payload carries the fault (0 first, 1 second)
@@ -82,7 +91,7 @@ type Case struct {
 }
 
 func (c *Case) key() string {
-	return fmt.Sprintf("%s|%s|%s|%d|%d|%d|%v|%s|%s|%v|%s|%v|%v|%d", c.Kind, c.Payload, c.Fault, c.Offset, c.Len, c.Chunk, c.Reuse, c.Deadline, c.Reader, c.Chunked, c.HookPoint, c.Sizes, c.EOFWith, c.Perturb) + "|" + c.ReuseVia + fmt.Sprintf("|%d|%s|%v|%d", c.RespLen, c.RespCT, c.CloseFails, c.FaultSrc)
+	return fmt.Sprintf("%s|%s|%s|%d|%d|%d|%v|%s|%s|%v|%s|%v|%v|%d", c.Kind, c.Payload, c.Fault, c.Offset, c.Len, c.Chunk, c.Reuse, c.Deadline, c.Reader, c.Chunked, c.HookPoint, c.Sizes, c.EOFWith, c.Perturb) + "|" + c.ReuseVia + fmt.Sprintf("|%d|%s|%v|%d|%d|%v|%d|%v|%v", c.RespLen, c.RespCT, c.CloseFails, c.FaultSrc, c.RespStatus, c.RespKnownLen, c.RespFailAt, c.Debug, c.AuthGetBody)
 }
 
 // switchRT serves a first, benign exchange itself and hands every later request to next.
@@ -209,6 +218,8 @@ type respBody struct {
 	pos     int
 	chunk   int // >0: at most that many bytes per Read (short reads while more remain)
 	eofWith bool
+	failAt  int // > 0: reads fail with errInjected once pos reaches failAt
+	failed  bool
 	closed  int32
 	sawEOF  bool
 	mu      sync.Mutex
@@ -220,9 +231,16 @@ func (b *respBody) Read(p []byte) (int, error) {
 	if b.closed > 0 {
 		return 0, errors.New("read after close")
 	}
+	if b.failAt > 0 && b.pos >= b.failAt {
+		b.failed = true
+		return 0, errInjected
+	}
 	if b.pos >= len(b.data) {
 		b.sawEOF = true
 		return 0, io.EOF
+	}
+	if b.failAt > 0 && len(p) > b.failAt-b.pos {
+		p = p[:b.failAt-b.pos]
 	}
 	if b.chunk > 0 && len(p) > b.chunk {
 		p = p[:b.chunk]
@@ -243,6 +261,8 @@ func (b *respBody) left() int {
 }
 
 type scriptedRT struct {
+	status   int    // 0 = 200
+	knownLen bool   // ContentLength = len(body) instead of -1
 	ct       string // Content-Type of the answer ("" = application/json)
 	mode     string // ok | err-before | err-after | err-mid
 	body     *respBody
@@ -282,8 +302,16 @@ func (s *scriptedRT) RoundTrip(r *http.Request) (*http.Response, error) {
 	if ct == "" {
 		ct = "application/json"
 	}
-	return &http.Response{StatusCode: 200, Status: "200 OK", Proto: "HTTP/1.1", ProtoMajor: 1, ProtoMinor: 1,
-		Header: http.Header{"Content-Type": {ct}}, Body: s.body, ContentLength: -1, Request: r}, nil
+	st := s.status
+	if st == 0 {
+		st = 200
+	}
+	cl := int64(-1)
+	if s.knownLen {
+		cl = int64(len(s.body.data))
+	}
+	return &http.Response{StatusCode: st, Status: fmt.Sprintf("%d %s", st, http.StatusText(st)), Proto: "HTTP/1.1", ProtoMajor: 1, ProtoMinor: 1,
+		Header: http.Header{"Content-Type": {ct}}, Body: s.body, ContentLength: cl, Request: r}, nil
 }
 
 // ---------- goroutine census ----------
@@ -383,8 +411,23 @@ func deadlines(c *Case) (reqTimeout time.Duration, ctx context.Context, cancel c
 	case "both-context-shorter":
 		ctx, cancel = context.WithTimeout(context.Background(), baseDeadline)
 		return longDeadline, ctx, cancel
+	case "negative-request":
+		// a request timeout that is already used up (SetTimeout(time.Until(budgetEnd)) past the budget)
+		return -time.Second, ctx, cancel
 	default:
 		return baseDeadline, ctx, cancel
+	}
+}
+
+type nullLogger struct{}
+
+func (nullLogger) Printf(string, ...interface{}) {}
+func (nullLogger) Debugf(string, ...interface{}) {}
+
+func debugOn(r *client.Runtime, c *Case) {
+	if c.Debug {
+		r.SetLogger(nullLogger{})
+		r.Debug = true // (SetDebug would also switch the middleware package's global flag)
 	}
 }
 
@@ -582,6 +625,7 @@ func runPresend(m *mon.M, c *Case) {
 	if c.Reuse {
 		r.EnableConnectionReuse()
 	}
+	debugOn(r, c)
 	op := &rt.ClientOperation{ID: "x", Method: method, PathPattern: pattern, ConsumesMediaTypes: consumesFor(c), ProducesMediaTypes: []string{"application/json"},
 		Params: h.params(c, baseDeadline, failWriter), Reader: h.reader(c), AuthInfo: auth, Context: context.Background()}
 	o := submitWatched(r, op, 200*baseDeadline)
@@ -617,6 +661,7 @@ func runUpload(m *mon.M, c *Case) {
 	if c.Reuse {
 		r.EnableConnectionReuse()
 	}
+	debugOn(r, c)
 	var auth rt.ClientAuthInfoWriter
 	if c.Fault == "with-getbody-auth" {
 		auth = rt.ClientAuthInfoWriterFunc(func(r rt.ClientRequest, _ strfmt.Registry) error { _ = r.GetBody(); return nil })
@@ -661,9 +706,10 @@ func runRoundtrip(m *mon.M, c *Case) {
 	if c.RespLen > 0 {
 		rl = c.RespLen
 	}
-	body := &respBody{data: []byte(`{"k":"` + strings.Repeat("r", rl) + `"}`), eofWith: c.EOFWith}
-	srt := &scriptedRT{mode: c.Fault, body: body, ct: c.RespCT}
+	body := &respBody{data: []byte(`{"k":"` + strings.Repeat("r", rl) + `"}`), eofWith: c.EOFWith, failAt: c.RespFailAt}
+	srt := &scriptedRT{mode: c.Fault, body: body, ct: c.RespCT, status: c.RespStatus, knownLen: c.RespKnownLen}
 	r := newRuntime(c, "example.invalid", srt)
+	debugOn(r, c)
 	op := &rt.ClientOperation{ID: "x", Method: "POST", PathPattern: "/things", ConsumesMediaTypes: consumesFor(c), ProducesMediaTypes: []string{"application/json"},
 		Params: h.params(c, baseDeadline, false), Reader: h.reader(c), Context: context.Background()}
 	o := submitWatched(r, op, 200*baseDeadline)
@@ -696,11 +742,15 @@ func runRoundtrip(m *mon.M, c *Case) {
 			m.Violate("roundtrip/reader-error-swallowed/"+feat, "the response reader failed but Submit returned nil error", c)
 			return
 		}
-		if c.RespCT == "" && c.Reader != "err" && o.err != nil {
+		if c.RespFailAt > 0 && c.RespCT == "" && c.Reader == "all" && o.err == nil {
+			m.Violate("roundtrip/response-body-error-swallowed/"+feat, fmt.Sprintf("the response body failed after %d of %d bytes but Submit returned nil error", c.RespFailAt, len(body.data)), c)
+			return
+		}
+		if c.RespFailAt == 0 && c.RespCT == "" && c.Reader != "err" && o.err != nil {
 			m.Violate("roundtrip/healthy-exchange-failed/"+feat, fmt.Sprintf("Submit failed: %v; case %s", o.err, c.key()), c)
 			return
 		}
-		if c.RespCT == "" && c.Reader == "all" && string(h.gotBody) != string(body.data) {
+		if c.RespFailAt == 0 && c.RespCT == "" && c.Reader == "all" && string(h.gotBody) != string(body.data) {
 			m.Violate("roundtrip/body-altered/"+feat, fmt.Sprintf("reader saw %q, sent %q", h.gotBody, body.data), c)
 			return
 		}
@@ -708,7 +758,11 @@ func runRoundtrip(m *mon.M, c *Case) {
 			m.Violate("roundtrip/response-body-not-closed/"+feat, "the response body was not closed; case "+c.key(), c)
 			return
 		}
-		if c.Reuse && !body.sawEOF && body.left() > 0 {
+		if c.Reuse && c.RespFailAt > 0 && !body.failed && !body.sawEOF {
+			m.Violate("roundtrip/response-body-closed-undrained/"+feat, fmt.Sprintf("connection reuse is on and the body was closed after %d bytes without reading on to its end (it would have failed at byte %d); case %s", len(body.data)-body.left(), c.RespFailAt, c.key()), c)
+			return
+		}
+		if c.Reuse && c.RespFailAt == 0 && !body.sawEOF && body.left() > 0 {
 			m.Violate("roundtrip/response-body-closed-undrained/"+feat, fmt.Sprintf("connection reuse is on, the end of the body was not seen, and %d bytes were left unread at Close; case %s", body.left(), c.key()), c)
 			return
 		}
@@ -835,6 +889,15 @@ func runServer(m *mon.M, c *Case) {
 		m.Violate("server/panic/"+feat, o.err.Error(), c)
 		return
 	}
+	if c2.Reader != "all" {
+		// a reader that stops early: whether the call fails depends on where the fault lies; what is owed is
+		// the return (above), and the release of everything once the fault is lifted
+		rel()
+		if checkReleased(m, c, h, before, "server/"+feat+"/reader-"+c2.Reader) {
+			m.Class("server-early-reader-ok")
+		}
+		return
+	}
 	if !complete && o.err == nil {
 		m.Violate("server/incomplete-response-reported-as-success/"+feat, fmt.Sprintf("the server delivered %d of %d response bytes then %s, but Submit returned (%v, nil); reader saw %q", sent, full, c.Fault, o.res, h.gotBody), c)
 		return
@@ -900,8 +963,12 @@ func runCancel(m *mon.M, c *Case) {
 	}
 	c2 := *c
 	c2.Reader = "all"
+	var auth rt.ClientAuthInfoWriter
+	if c.AuthGetBody {
+		auth = rt.ClientAuthInfoWriterFunc(func(r rt.ClientRequest, _ strfmt.Registry) error { _ = r.GetBody(); return nil })
+	}
 	op := &rt.ClientOperation{ID: "x", Method: "POST", PathPattern: "/things", ConsumesMediaTypes: consumesFor(c), ProducesMediaTypes: []string{"application/json"},
-		Params: h.params(c, 100*baseDeadline, false), Reader: h.reader(&c2), Context: ctx}
+		Params: h.params(c, 100*baseDeadline, false), Reader: h.reader(&c2), AuthInfo: auth, Context: ctx}
 	o := submitWatched(r, op, 200*baseDeadline)
 	feat := c.HookPoint + "/" + c.Payload
 	if !o.returned {
@@ -1068,6 +1135,37 @@ func enumerate(m *mon.M) []*Case {
 			}
 		}
 	}
+	// answers of other statuses, with a declared length, and bodies that fail while being read
+	for _, p := range []string{"json", "file"} {
+		for _, reuse := range []bool{false, true} {
+			for _, st := range []int{200, 404, 500} {
+				for _, kl := range []bool{false, true} {
+					for _, rd := range []string{"all", "none", "half"} {
+						for _, fa := range []int{0, 100, 300000} {
+							rl := 300
+							if fa > 300 || (kl && rd != "all") {
+								rl = 400000 // a long declared length that is left unread
+							}
+							if st == 200 && !kl && fa == 0 {
+								continue // the plain case, covered below
+							}
+							cs = append(cs, &Case{Kind: "roundtrip", Fault: "ok", Payload: p, Len: 300, RespLen: rl, RespStatus: st, RespKnownLen: kl, RespFailAt: fa, Reuse: reuse, Reader: rd})
+						}
+					}
+				}
+			}
+		}
+	}
+	// Runtime.Debug on: the dumps read the request and the response before they are used
+	for _, p := range payloads {
+		cs = append(cs, &Case{Kind: "roundtrip", Fault: "ok", Payload: p, Len: 300, Reuse: true, Reader: "half", Debug: true})
+		cs = append(cs, &Case{Kind: "roundtrip", Fault: "ok", Payload: p, Len: 300, Reader: "all", Debug: true})
+		cs = append(cs, &Case{Kind: "presend", Fault: "auth-error-after-getbody", Payload: p, Len: 700, Reader: "all", Debug: true})
+		if p != "json" && p != "none" {
+			cs = append(cs, &Case{Kind: "upload", Payload: p, Len: 600, Offset: 550, Reader: "all", Debug: true})
+			cs = append(cs, &Case{Kind: "upload", Payload: p, Len: 64, Offset: -1, Reader: "all", Debug: true})
+		}
+	}
 	// scripted transport
 	for _, f := range []string{"ok", "err-before", "err-after", "err-mid"} {
 		for _, p := range payloads {
@@ -1099,9 +1197,9 @@ func enumerate(m *mon.M) []*Case {
 				for _, reuse := range []bool{false, true} {
 					dls := []string{"request"}
 					if act == "stall" {
-						dls = []string{"request", "context", "both-request-shorter", "both-context-shorter"}
+						dls = []string{"request", "context", "both-request-shorter", "both-context-shorter", "negative-request"}
 						if quick {
-							dls = []string{dls[off%4]}
+							dls = []string{dls[off%5]}
 						}
 					}
 					for _, dl := range dls {
@@ -1114,6 +1212,10 @@ func enumerate(m *mon.M) []*Case {
 							via = []string{"", "with-client", "after-first-call"}[off%3]
 						}
 						cs = append(cs, &Case{Kind: "server", Fault: act, Offset: off, Chunked: chunked, Reuse: reuse, ReuseVia: via, Deadline: dl, Payload: pl, Len: 40, Reader: "all"})
+						if act != "reset" && off%3 == 0 {
+							// a reader that stops early meets the stalled or truncated body (drain on close under reuse)
+							cs = append(cs, &Case{Kind: "server", Fault: act, Offset: off, Chunked: chunked, Reuse: reuse, ReuseVia: via, Deadline: dl, Payload: pl, Len: 40, Reader: []string{"none", "half"}[(off/3)%2]})
+						}
 					}
 				}
 			}
@@ -1122,8 +1224,12 @@ func enumerate(m *mon.M) []*Case {
 	// cancellation at the hook points
 	for _, hp := range []string{"cl.submit.built", "cl.submit.clientReady", "cl.submit.beforeDo", "cl.submit.afterDo", "cl.multipart.part", "cl.getbody.copy"} {
 		for _, p := range []string{"file", "files+fields", "json", "reader"} {
+			if hp == "cl.multipart.part" && (p == "json" || p == "reader") {
+				continue // no multipart document is written for these payloads: the point cannot be reached
+			}
 			for _, reuse := range []bool{false, true} {
-				cs = append(cs, &Case{Kind: "cancel", HookPoint: hp, Payload: p, Len: 5000, Reuse: reuse})
+				// cl.getbody.copy lies in GetBody, which only an auth writer calls
+				cs = append(cs, &Case{Kind: "cancel", HookPoint: hp, Payload: p, Len: 5000, Reuse: reuse, AuthGetBody: hp == "cl.getbody.copy"})
 			}
 		}
 	}
